@@ -17,7 +17,7 @@ k), where k is what the property prescribes for the action.
 import types
 import numpy as np
 import z3
-from vx import sym, loader, report
+from vx import sym, strs, loader, report
 from vx.sym import SInt, SReal, SBool
 
 PID = 'C07'
@@ -612,7 +612,7 @@ def task_file_nav(rel, tier, part=0, nparts=1, skip=None, maxseq=None, derive=No
                 return False
             if list(lst._tablenames) != snap['order'] or any(list(lst._table[tn].row_name) != snap['names'][tn] for tn in snap['order']):
                 fail(seqlab, 'tables', '%s: tables / row names differ from those of a fresh reader' % what0, log); return False
-            items = []
+            items, pforms = [], {}
             for tn in snap['order']:
                 a, b = lst._table[tn]._data, snap['tables'][tn]
                 if a.shape != b.shape:
@@ -623,7 +623,17 @@ def task_file_nav(rel, tier, part=0, nparts=1, skip=None, maxseq=None, derive=No
                     if isinstance(u, SReal) or isinstance(v, SReal):
                         if any(isinstance(x, float) and x != x for x in (u, v)):
                             fail(seqlab, 'tables', '%s: table %s row %d is nan in one reader' % (what0, tn, i // ncol), log); return False
-                        items.append((sym.lift_real(u) == sym.lift_real(v), '%s:%d:%d' % (tn, i // ncol, i % ncol)))
+                        ue, ve = sym.lift_real(u), sym.lift_real(v)
+                        pu, pv = strs.num_parts(ue), strs.num_parts(ve)
+                        lab = '%s:%d:%d' % (tn, i // ncol, i % ncol)
+                        if pu is not None and pv is not None:
+                            # two numbers read from cells: same sign, digits and exponent (linear; sufficient, not necessary:
+                            # a refutation is re-examined by exact value, as in C05)
+                            fm = z3.And(*[x_ == y_ for x_, y_ in zip(pu, pv)])
+                            pforms[lab] = (0, 0, ue, ve, pu, pv, fm)
+                            items.append((fm, lab))
+                        else:
+                            items.append((ue == ve, lab))
                     elif not (u == v):
                         fail(seqlab, 'tables', '%s: table %s row %d column %d shows %r, a fresh reader positioned there shows %r' % (
                             what0, tn, i // ncol, i % ncol, u, v), log)
@@ -633,10 +643,17 @@ def task_file_nav(rel, tier, part=0, nparts=1, skip=None, maxseq=None, derive=No
                 sf = z3.simplify(f_)
                 if not z3.is_true(sf): distinct.add(('cell', sf.hash()))
             counters['reached'] += 3
-            hit = C06.decide(c, items + [(True, 'index'), (True, 'time-step'), (True, 'tables-concrete-cells')])
-            if hit is not None:
-                tn, ri, ci = hit[0].split(':')
-                fail(seqlab, 'tables', '%s: table %s row %s column %s differs from what a fresh reader positioned there shows' % (what0, tn, ri, ci), log, model=hit[1])
+            items = items + [(True, 'index'), (True, 'time-step'), (True, 'tables-concrete-cells')]
+            for _ in range(6):
+                hit = C06.decide(c, items)
+                if hit is None: return True
+                lab, m = hit
+                if lab in pforms:
+                    m = c05._confirm(c, lab, *pforms[lab])
+                    if m is None:        # the components differ but the values cannot: drop this cell and look at the others
+                        items = [x_ for x_ in items if x_[1] != lab]; continue
+                tn, ri, ci = lab.split(':')
+                fail(seqlab, 'tables', '%s: table %s row %s column %s differs from what a fresh reader positioned there shows' % (what0, tn, ri, ci), log, model=m)
                 return False
             return True
 
@@ -722,10 +739,15 @@ def file_tasks(tier):
     if only: files = [f for f in cc.listing_files(loader.REPO) if any(x in f for x in only)]
     tasks = []
     for rel in files:
-        nlines = sum(1 for _ in open(os.path.join(loader.REPO, 'tests', 'listing', rel), 'rb'))
-        K, cap = (120000, 160) if tier == 'quick' else (1500000, 1100)
-        maxseq = max(24, min(cap, K * 8 // max(1, nlines)))
-        nparts = 1 if tier == 'quick' else max(1, min(4, maxseq // 300))
+        # number of sequences by cost: one action re-reads one result set (~18 microseconds per line here);
+        # budget per file ~12 s (quick) / ~100 s (thorough) of reading, dealt over <= 4 tasks
+        raw = cc.read_lines(os.path.join(loader.REPO, 'tests', 'listing', rel))
+        nfull = max(1, sum(1 for l in raw if l.lstrip().lower().startswith('output data after') or l[1:6] == 'EEEEE') or 1)
+        if cc.family_of(raw) == 'AUTOUGH2': nfull = max(1, nfull // 2)
+        per_seq = 2.5 * (len(raw) / float(nfull)) * 1.8e-5
+        budget_s, cap = (12.0, 160) if tier == 'quick' else (100.0, 1100)
+        maxseq = int(max(24, min(cap, budget_s / per_seq)))
+        nparts = 1 if tier == 'quick' else max(1, min(4, max(maxseq // 300, int(maxseq * per_seq * 2 / 60.0) + 1)))
         for part in range(nparts):
             tasks.append((task_file_nav, dict(rel=rel, tier=tier, part=part, nparts=nparts, maxseq=maxseq)))
         reln = rel.replace(os.sep, '/')
@@ -738,7 +760,7 @@ def file_tasks(tier):
     return tasks, files
 
 
-FILE_SKIP = {'TOUGH2/8/OUTFILE': (('connection',),), 'AUTOUGH2/3/case3.listing': (('element',),), 'TOUGHplus/4/t3T_out.dat': (('element1', 'primary'),)}
+FILE_SKIP = {'TOUGH2/8/OUTFILE': (('connection',),), 'TOUGH2/11/case11.listing': (('connection',),), 'AUTOUGH2/3/case3.listing': (('element',),), 'TOUGHplus/4/t3T_out.dat': (('element1', 'primary'),)}
 FILE_SKIP_THOROUGH = dict(FILE_SKIP)
 FILE_SKIP_THOROUGH.update({'TOUGH2/8/OUTFILE': (('connection',), ('element',), ('primary', 'generation')),
                            'TOUGH2/11/case11.listing': (('connection',), ('generation',)),
